@@ -28,7 +28,7 @@ def effect_blocks(body):
     return out
 
 
-def explicit_panics(body):
+def explicit_panics(body, _depth=0):
     out = []
     dbg = body.debug_only_blocks()
     for bb, t in body.calls():
@@ -37,6 +37,11 @@ def explicit_panics(body):
             if bb in dbg:
                 continue
             out.append(bb)
+        elif t.get("local_key") and t.get("target") is None and bb not in dbg and _depth < 3:
+            # a call to a local `-> !` function (a #[cold] out-of-line panic): an explicit panic here
+            hb = body.facts.bodies.get(t["local_key"])
+            if hb is not None and explicit_panics(hb, _depth + 1):
+                out.append(bb)
     return out
 
 
